@@ -201,9 +201,13 @@ def g_hosvd(draw, tier):
     c = R.d_dense_like(draw, shape, "float")
     c["tol"] = draw(st.sampled_from([1e-3, 0.1, 0.5]))
     c["dimorder"] = d_order(draw, n)
-    if draw(st.booleans()):
+    rform = draw(st.sampled_from(["none", "array", "array", "list"]))
+    if rform != "none":
         # 0 = 'compute this rank'
-        c["ranks"] = dict(v=[draw(st.integers(0, s - 1)) for s in shape], form=draw(st.sampled_from(["array", "array", "list"])))
+        v = [draw(st.integers(0, s - 1)) for s in shape]
+        if draw(st.sampled_from([True, True, False])):
+            v[draw(st.integers(0, n - 1))] = 0
+        c["ranks"] = dict(v=v, form=rform)
     else:
         c["ranks"] = None
     c["sequential"] = draw(st.booleans())
@@ -300,7 +304,7 @@ def g_gcp(draw, tier):
         vals = [float(v) for v in draw(st.lists(st.sampled_from([0, 0, 0, 0, 0, 1, 2, 3]), min_size=total, max_size=total))]
         vals[0], vals[1], vals[-1], vals[-2] = 2.0, 0.0, 1.0, 0.0
         c["vals"] = vals
-        c["optimizer"] = draw(st.sampled_from(["SGD", "Adam", "Adagrad"]))
+        c["optimizer"] = draw(st.sampled_from(["SGD", "Adam", "Adagrad", "Adagrad"]))
         c["mask"] = None
     else:
         c["vals"] = d_counts(draw, total)
